@@ -9,8 +9,8 @@ import (
 	"github.com/gordian-engine/gordian/internal/zzverif/vx"
 )
 
-var voteVariants = []string{"flip", "wrongkey", "crosskind", "otherround", "othertarget", "zerosig", "emptysig", "idrange", "idlen0", "idlen1", "idlen3", "badpkh", "mix", "dupid", "emptymap"}
-var phVariants = []string{"forgedNext", "forgedCur", "badhash", "nonval", "badsig", "nokey", "badpcp", "shortpcp", "foreignpcp", "duppcp", "emptypcp"}
+var voteVariants = []string{"flip", "wrongkey", "crosskind", "otherround", "othertarget", "zerosig", "emptysig", "idrange", "idN", "idmax", "idlen0", "idlen1", "idlen3", "badpkh", "mix", "dupid", "emptymap"}
+var phVariants = []string{"forgedNext", "forgedCur", "badhash", "nonval", "badsig", "nokey", "badpcp", "shortpcp", "foreignpcp", "duppcp", "emptypcp", "pcpidN", "pcpidlen1"}
 var replayVariants = []string{"ok", "lowpower", "byzonly", "nextround", "prevH", "nextH", "badhash", "badprev", "foreign", "blockB"}
 
 // alphabet lists the environment events. "full" is used for single deviations, "core" where the space is squared or cubed.
@@ -176,14 +176,17 @@ func exploreDeviations(c *vx.Ctx, props string, maxDev int, st *exploreStats, ea
 		completed = 1
 	}
 	if done && maxDev >= 2 {
+		// Pairs: every core deviation combined with every core deviation at the same or one of the next
+		// pairWindow script positions (interactions between deviations further apart than a round are covered by BFS seeds).
 		core := singleDeviations(script, alphabet("core"))
 		c.Extra["alphabet_core"] = len(alphabet("core"))
+		c.Extra["pair_window_positions"] = pairWindow
 		var pairs []vx.Job
 		for i, d1 := range core {
 			p1 := devPos(d1)
 			for k, d2 := range core {
 				p2 := devPos(d2)
-				if p2 < p1 || (p2 == p1 && k == i) {
+				if p2 < p1 || p2 > p1+pairWindow || (p2 == p1 && k == i) {
 					continue
 				}
 				pairs = append(pairs, devJob(props, d1, d2))
@@ -196,6 +199,8 @@ func exploreDeviations(c *vx.Ctx, props string, maxDev int, st *exploreStats, ea
 	}
 	c.Extra["deviation_bound_completed"] = completed
 }
+
+const pairWindow = 8
 
 func devPos(d string) int {
 	n := 0
@@ -364,7 +369,7 @@ func exploreNode(c *vx.Ctx, props string, maxDev int, bfsDepth int, st *exploreS
 			p1 := devPos(d1)
 			for k, d2 := range core {
 				p2 := devPos(d2)
-				if p2 < p1 || (p2 == p1 && k == i) {
+				if p2 < p1 || p2 > p1+pairWindow || (p2 == p1 && k == i) {
 					continue
 				}
 				pairs = append(pairs, nodeJob(props, d1, d2))
@@ -376,6 +381,20 @@ func exploreNode(c *vx.Ctx, props string, maxDev int, bfsDepth int, st *exploreS
 		}
 	}
 	c.Extra["engine_deviation_bound_completed"] = completed
+	// Second script (missing-header commit wait): itself and every single deviation inside its special round.
+	{
+		s2 := nodeScript2()
+		js := []vx.Job{{Exec: "node", Args: map[string]string{"props": props, "mode": "dev", "script": "2"}}}
+		for pos := 8; pos <= 19; pos++ {
+			for _, ev := range nodeAlphabet("full") {
+				js = append(js, vx.Job{Exec: "node", Hist: []string{fmt.Sprintf("%d:+%s", pos, ev)}, Args: map[string]string{"props": props, "mode": "dev", "script": "2"}})
+			}
+			js = append(js, vx.Job{Exec: "node", Hist: []string{fmt.Sprintf("%d:-", pos)}, Args: map[string]string{"props": props, "mode": "dev", "script": "2"}})
+		}
+		c.Extra["engine_script2_len"] = len(s2)
+		c.Extra["engine_script2_executions"] = len(js)
+		runJobs(c, js, st, pl, each)
+	}
 	if bfsDepth > 0 {
 		seen := map[string]struct{}{}
 		type node struct {
